@@ -890,8 +890,164 @@ impl ZooMsg for Pad3 {
 }
 
 // ---------------------------------------------------------------------------------------------
+// T19: arrays of content-constrained items (in a field walk and as vector items)
 
-pub const N_TYPES: usize = 19;
+fn rd_mode(m: &Mode) -> Val {
+    let raw = unsafe { *(m as *const Mode as *const u8) };
+    if raw > 2 {
+        note_invalid("C-like enum tag out of range");
+        return Val::T(0);
+    }
+    Val::T(raw as u32)
+}
+fn mk_mode(v: &Val) -> Mode {
+    match v.tag() {
+        0 => Mode::X,
+        1 => Mode::Y,
+        _ => Mode::Z,
+    }
+}
+
+#[flat(sized = false, default = true)]
+pub struct ArrTail {
+    pub id: u16,
+    pub on: [Bool; 4],
+    pub m: [Mode; 2],
+    pub v: FlatVec<[Bool; 2], u8>,
+}
+
+impl ZooMsg for ArrTail {
+    const NAME: &'static str = "ArrTail";
+    fn gen(g: &mut Gen) -> Val {
+        let id = g.int(16, false);
+        let on = Val::L((0..4).map(|_| Val::B(g.boolean())).collect());
+        let m = Val::L((0..2).map(|_| Val::T(g.pick(3))).collect());
+        let n = g.len();
+        let v = Val::L((0..n).map(|_| Val::L(vec![Val::B(g.boolean()), Val::B(g.boolean())])).collect());
+        Val::R(vec![Val::I(id), on, m, v])
+    }
+    fn emplace_val<'b>(bytes: &'b mut [u8], v: &Val) -> Result<&'b mut Self, Error> {
+        let on = v.field(1);
+        let m = v.field(2);
+        Self::new_in_place(
+            bytes,
+            ArrTailInit {
+                id: v.field(0).int() as u16,
+                on: [Bool::from(on.field(0).boolean()), Bool::from(on.field(1).boolean()), Bool::from(on.field(2).boolean()), Bool::from(on.field(3).boolean())],
+                m: [mk_mode(m.field(0)), mk_mode(m.field(1))],
+                v: vec::FromIterator(v.field(3).list().iter().map(|x| [Bool::from(x.field(0).boolean()), Bool::from(x.field(1).boolean())])),
+            },
+        )
+    }
+    fn read(&self) -> Val {
+        Val::R(vec![
+            Val::I(self.id as i128),
+            Val::L(self.on.iter().map(rd_bool).collect()),
+            Val::L(self.m.iter().map(rd_mode).collect()),
+            rd_vec(&self.v, |a| Val::L(a.iter().map(rd_bool).collect())),
+        ])
+    }
+    fn tweak(&mut self, g: &mut Gen) {
+        self.on[g.pick(4) as usize] = Bool::from(g.boolean());
+        tweak_vec(&mut self.v, g, |g| [Bool::from(g.boolean()), Bool::True]);
+    }
+}
+
+// T20, T21: FlexVec with a portable offset type (OFFSET_SIZE wider than the alignment)
+
+pub type PStr16 = FlatString<le::U16>;
+impl ZooMsg for PStr16 {
+    const NAME: &'static str = "FlatString<le::U16>";
+    fn gen(g: &mut Gen) -> Val {
+        let n = g.len();
+        Val::S(g.string(n))
+    }
+    fn emplace_val<'b>(bytes: &'b mut [u8], v: &Val) -> Result<&'b mut Self, Error> {
+        Self::new_in_place(bytes, string::FromStr(v.str()))
+    }
+    fn read(&self) -> Val {
+        rd_str(self)
+    }
+    fn tweak(&mut self, g: &mut Gen) {
+        tweak_str(self, g);
+    }
+}
+
+pub type PFlexS = FlexVec<PStr16, le::U16>;
+impl ZooMsg for PFlexS {
+    const NAME: &'static str = "FlexVec<FlatString<le::U16>,le::U16>";
+    fn gen(g: &mut Gen) -> Val {
+        gen_flex::<PStr16>(g)
+    }
+    fn emplace_val<'b>(bytes: &'b mut [u8], v: &Val) -> Result<&'b mut Self, Error> {
+        emplace_flex::<PStr16, le::U16>(bytes, v)
+    }
+    fn read(&self) -> Val {
+        read_flex(self)
+    }
+    fn tweak(&mut self, g: &mut Gen) {
+        tweak_flex(self, g);
+    }
+}
+
+pub type VecU16 = FlatVec<u16, u16>;
+impl ZooMsg for VecU16 {
+    const NAME: &'static str = "FlatVec<u16,u16>";
+    fn gen(g: &mut Gen) -> Val {
+        let n = g.len();
+        Val::L((0..n).map(|_| Val::I(g.int(16, false))).collect())
+    }
+    fn emplace_val<'b>(bytes: &'b mut [u8], v: &Val) -> Result<&'b mut Self, Error> {
+        Self::new_in_place(bytes, vec::FromIterator(v.list().iter().map(|x| x.int() as u16)))
+    }
+    fn read(&self) -> Val {
+        rd_vec(self, |x| Val::I(*x as i128))
+    }
+    fn tweak(&mut self, g: &mut Gen) {
+        tweak_vec(self, g, |g| g.int(16, false) as u16);
+    }
+}
+
+pub type PFlexV = FlexVec<VecU16, le::U32>;
+impl ZooMsg for PFlexV {
+    const NAME: &'static str = "FlexVec<FlatVec<u16,u16>,le::U32>";
+    fn gen(g: &mut Gen) -> Val {
+        gen_flex::<VecU16>(g)
+    }
+    fn emplace_val<'b>(bytes: &'b mut [u8], v: &Val) -> Result<&'b mut Self, Error> {
+        emplace_flex::<VecU16, le::U32>(bytes, v)
+    }
+    fn read(&self) -> Val {
+        read_flex(self)
+    }
+    fn tweak(&mut self, g: &mut Gen) {
+        tweak_flex(self, g);
+    }
+}
+
+// T22: vector of C-like enums
+
+pub type ModeVec = FlatVec<Mode, u8>;
+impl ZooMsg for ModeVec {
+    const NAME: &'static str = "FlatVec<Mode,u8>";
+    fn gen(g: &mut Gen) -> Val {
+        let n = g.len();
+        Val::L((0..n).map(|_| Val::T(g.pick(3))).collect())
+    }
+    fn emplace_val<'b>(bytes: &'b mut [u8], v: &Val) -> Result<&'b mut Self, Error> {
+        Self::new_in_place(bytes, vec::FromIterator(v.list().iter().map(mk_mode)))
+    }
+    fn read(&self) -> Val {
+        rd_vec(self, rd_mode)
+    }
+    fn tweak(&mut self, g: &mut Gen) {
+        tweak_vec(self, g, |g| [Mode::X, Mode::Y, Mode::Z][g.pick(3) as usize]);
+    }
+}
+
+// ---------------------------------------------------------------------------------------------
+
+pub const N_TYPES: usize = 23;
 pub const TYPE_NAMES: [&str; N_TYPES] = [
     "TestMsg",
     "PadTail",
@@ -912,6 +1068,10 @@ pub const TYPE_NAMES: [&str; N_TYPES] = [
     "FlexVec<FlatString<u8>,u16>",
     "FlatVec<Bool,u8>",
     "Pad3",
+    "ArrTail",
+    "FlexVec<FlatString<le::U16>,le::U16>",
+    "FlexVec<FlatVec<u16,u16>,le::U32>",
+    "FlatVec<Mode,u8>",
 ];
 
 /// Dispatch a generic call over the zoo by index.
@@ -937,7 +1097,11 @@ macro_rules! with_zoo_type {
             15 => $f::<$crate::zoo::Nest>($($args),*),
             16 => $f::<$crate::zoo::FlexS>($($args),*),
             17 => $f::<$crate::zoo::BoolVec>($($args),*),
-            _ => $f::<$crate::zoo::Pad3>($($args),*),
+            18 => $f::<$crate::zoo::Pad3>($($args),*),
+            19 => $f::<$crate::zoo::ArrTail>($($args),*),
+            20 => $f::<$crate::zoo::PFlexS>($($args),*),
+            21 => $f::<$crate::zoo::PFlexV>($($args),*),
+            _ => $f::<$crate::zoo::ModeVec>($($args),*),
         }
     };
 }
